@@ -632,3 +632,123 @@ theorem bndRun_init (p : Nat) (pt : Bool) (F : Nat) (hF : 63 ≤ F) : ∀ (ops :
     simp only [hleaves] at hlen
     obtain ⟨b1, b2, _⟩ := bnd_init hl hn p pt L (by simp only [List.length_append] at hlen; omega)
     exact ⟨b1, by omega, trivial, bndRun_init p pt F hF ops L hw hlen⟩
+
+/-! ### `ReadAll` (readers.go): a reader that is a finite byte stream -/
+
+theorem makeBytes_length (seg : Int) : (makeBytes seg).length = seg.toNat := by simp [makeBytes]
+
+theorem rf_nil (seg : Int) (hs : 0 < seg) :
+    readFull [] (makeBytes seg) = ([], makeBytes seg, 0, Err.sentinel "io.EOF") := by
+  have : (makeBytes seg).length ≠ 0 := by rw [makeBytes_length]; omega
+  simp [readFull, this]
+
+theorem rf_short (seg : Int) (r : B) (h0 : r ≠ []) (hlt : r.length < seg.toNat) :
+    readFull r (makeBytes seg) = ([], r ++ (makeBytes seg).drop r.length, len r, Err.sentinel "io.ErrUnexpectedEOF") := by
+  have h1 : (makeBytes seg).length ≠ 0 := by rw [makeBytes_length]; omega
+  have h2 : r.length ≠ 0 := by simpa using h0
+  have h3 : r.length < (makeBytes seg).length := by rw [makeBytes_length]; exact hlt
+  simp [readFull, h1, h2, h3]
+
+theorem rf_full (seg : Int) (hs : 0 < seg) (r : B) (hge : seg.toNat ≤ r.length) :
+    readFull r (makeBytes seg) = (r.drop seg.toNat, r.take seg.toNat, len (makeBytes seg), Err.nil) := by
+  have h1 : (makeBytes seg).length ≠ 0 := by rw [makeBytes_length]; omega
+  have h2 : r.length ≠ 0 := by omega
+  have h3 : ¬ r.length < (makeBytes seg).length := by rw [makeBytes_length]; omega
+  unfold readFull
+  rw [if_neg h1, if_neg h2, if_neg h3, makeBytes_length]
+
+theorem chunks_fuel (s : Nat) (hs : 0 < s) : ∀ (f1 f2 : Nat) (bs : List UInt8), bs.length ≤ f1 → bs.length ≤ f2 →
+    chunks s f1 bs = chunks s f2 bs := by
+  intro f1
+  induction f1 with
+  | zero =>
+    intro f2 bs h1 _
+    have : bs = [] := by simpa using h1
+    subst this
+    cases f2 <;> simp [chunks]
+  | succ f1 ih =>
+    intro f2 bs h1 h2
+    cases f2 with
+    | zero =>
+      have : bs = [] := by simpa using h2
+      subst this
+      simp [chunks]
+    | succ f2 =>
+      simp only [chunks]
+      cases bs with
+      | nil => simp
+      | cons b bs' =>
+        simp only [List.isEmpty_cons, Bool.false_eq_true, ↓reduceIte]
+        rw [ih f2 _ (by simp at h1 ⊢; omega) (by simp at h2 ⊢; omega)]
+
+/-- one `Push` on the tree of the leaves `L` -/
+theorem push_init (p : Nat) (pt : Bool) (F : Nat) (hF : 63 ≤ F) (g : GTree) (L : List B) (d : B) (hinv : Inv g)
+    (hg : abs g = pushAll hl hn (init0 p pt) L) (hlen : L.length + 1 < 2^63) :
+    Inv (Push hl hn g d F) ∧ abs (Push hl hn g d F) = pushAll hl hn (init0 p pt) (L ++ [d]) := by
+  obtain ⟨b1, b2, b3⟩ := bnd_init hl hn p pt L (by omega)
+  rw [← hg] at b1 b2 b3
+  have hc : g.currentIndex + 1 < 2^64 := by
+    have : g.currentIndex = L.length := b3
+    omega
+  have hf : g.head.length ≤ F := by simp [abs, absStack] at b2; omega
+  obtain ⟨h1, h2, _⟩ := push_eq hl hn g d F hinv b1 hc hf
+  refine ⟨h2, ?_⟩
+  rw [h1, hg, pushAll_append]; rfl
+
+/-- the loop of `ReadAll`: pushes the segments `chunks seg fuel r` -/
+theorem readLoop_eq (p : Nat) (pt : Bool) (F2 F3 : Nat) (h2 : 63 ≤ F2) (h3 : 63 ≤ F3) (seg : Int) (hs : 0 < seg) :
+    ∀ (fuel : Nat) (g : GTree) (r : B) (L : List B), Inv g → abs g = pushAll hl hn (init0 p pt) L → L.length + fuel < 2^63 →
+    ∃ g' r', ReadAll.loop1 hl hn F2 F3 seg fuel g r = ((g', r'), none) ∧ Inv g' ∧
+      abs g' = pushAll hl hn (init0 p pt) (L ++ chunks seg.toNat fuel r) := by
+  intro fuel
+  induction fuel with
+  | zero => intro g r L hinv hg _; exact ⟨g, r, rfl, hinv, by simp [chunks, hg]⟩
+  | succ f ih =>
+    intro g r L hinv hg hlen
+    unfold ReadAll.loop1
+    simp only [↓reduceIte, chunks]
+    cases hr : r with
+    | nil =>
+      rw [rf_nil seg hs]
+      exact ⟨g, [], by simp, hinv, by simp [hg]⟩
+    | cons b r' =>
+      rw [← hr]
+      have hne : r ≠ [] := by rw [hr]; simp
+      have hemp : r.isEmpty = false := by rw [hr]; rfl
+      by_cases hlt : r.length < seg.toNat
+      · rw [rf_short seg r hne hlt]
+        have e1 : (Err.sentinel "io.ErrUnexpectedEOF" == Err.sentinel "io.EOF") = false := by decide
+        have e2 : (Err.sentinel "io.ErrUnexpectedEOF" == Err.sentinel "io.ErrUnexpectedEOF") = true := by decide
+        have e3 : List.take (len r).toNat (r ++ (makeBytes seg).drop r.length) = r.take seg.toNat := by
+          simp [len, List.take_of_length_le (Nat.le_of_lt hlt)]
+        have e4 : r.drop seg.toNat = [] := List.drop_of_length_le (Nat.le_of_lt hlt)
+        simp only [e1, e2, Bool.false_eq_true, ↓reduceIte, e3, hemp]
+        obtain ⟨i1, i2⟩ := push_init hl hn p pt F2 h2 g L (r.take seg.toNat) hinv hg (by omega)
+        obtain ⟨g', r'', k1, k2, k3⟩ := ih (Push hl hn g (r.take seg.toNat) F2) [] (L ++ [r.take seg.toNat]) i1 i2
+          (by simp; omega)
+        refine ⟨g', r'', k1, k2, ?_⟩
+        rw [k3, e4]; simp
+      · rw [rf_full seg hs r (by omega)]
+        have e1 : (Err.nil == Err.sentinel "io.EOF") = false := by decide
+        have e2 : (Err.nil == Err.sentinel "io.ErrUnexpectedEOF") = false := by decide
+        have e3 : (Err.nil != Err.nil) = false := by decide
+        simp only [e1, e2, e3, Bool.false_eq_true, ↓reduceIte, hemp]
+        obtain ⟨i1, i2⟩ := push_init hl hn p pt F3 h3 g L (r.take seg.toNat) hinv hg (by omega)
+        obtain ⟨g', r'', k1, k2, k3⟩ := ih (Push hl hn g (r.take seg.toNat) F3) (r.drop seg.toNat) (L ++ [r.take seg.toNat]) i1 i2
+          (by simp; omega)
+        refine ⟨g', r'', k1, k2, ?_⟩
+        rw [k3]; simp
+
+/-- `ReadAll(r, seg)` on the tree of the leaves `L`, for a reader that is the byte stream `r`, `seg > 0`: no error, and the tree is
+the model's `readAll` (the stream cut into segments of `seg` bytes, the last one shorter, pushed one by one) -/
+theorem readAll_eq (p : Nat) (pt : Bool) (F2 F3 : Nat) (h2 : 63 ≤ F2) (h3 : 63 ≤ F3) (seg : Int) (hs : 0 < seg) (fuel : Nat)
+    (g : GTree) (r : B) (L : List B) (hinv : Inv g) (hg : abs g = pushAll hl hn (init0 p pt) L) (hf : r.length ≤ fuel)
+    (hlen : L.length + fuel < 2^63) :
+    (ReadAll hl hn g r seg fuel F2 F3).2 = Err.nil ∧ Inv (ReadAll hl hn g r seg fuel F2 F3).1 ∧
+      abs (ReadAll hl hn g r seg fuel F2 F3).1 = readAll hl hn (abs g) r seg.toNat := by
+  obtain ⟨g', r', k1, k2, k3⟩ := readLoop_eq hl hn p pt F2 F3 h2 h3 seg hs fuel g r L hinv hg hlen
+  unfold ReadAll
+  rw [k1]
+  refine ⟨rfl, k2, ?_⟩
+  simp only [k3, readAll, hg]
+  rw [← pushAll_append, chunks_fuel seg.toNat (by omega) fuel r.length r hf (Nat.le_refl _)]
